@@ -1,12 +1,12 @@
-#check @List.idxOf
-#check @List.range'
-#check @Array.getD
-#check @List.sum
-#check @List.flatMap
-#check @List.getD
-#check @List.zip
-#check @List.contains
+import Mathlib.Data.List.Sort
+open List
+#check @List.getD_eq_getElem?_getD
+#check @List.range'_append_1
+#check @List.range'_append
+#check @List.zip_append
+#check @List.take_left'
 #check @List.getElem_idxOf
-#check @List.idxOf_lt_length_iff
-#eval [1,2,3].sum
-#eval (#[1,2,3] : Array Nat).getD 5 0
+example (l : List Nat) (i d : Nat) (h : i < l.length) : l.getD i d = l[i] := by
+  simp [List.getD_eq_getElem?_getD, h]
+example (p a b : Nat) : List.range' p (a + b) = List.range' p a ++ List.range' (p + a) b := by
+  exact?
